@@ -33,6 +33,9 @@ CHECKS["C04"] = dict(engine="symx", technique="symbolic execution (symx/z3) of e
 CHECKS["C16"] = dict(engine="crosshair", technique="CrossHair (symbolic execution of Python with z3) on PEP-316 conditions over the real structure_from_dict / unstructure_to_dict / DataclassSerializer: leaf values, presence flags, list lengths and graph edges symbolic; one process per condition, reachability twins, native replay of counterexamples",
    text="For a stated family of 7 dataclass types (plain, keyword-like and case-colliding wire keys, datetime/date/bytes/bool leaves, nesting to depth 3 through dataclass, list, dict, optional, list of lists, and a recursive Node) CrossHair decides 15 conditions per warm-up history of the global converter (2 quick / 3 thorough): decode-encode and encode-decode identities, ValueError naming the offending field, and DataclassSerializer terminating with JSON data without null-valued keys on every edge assignment of 3-node (next-only / children-only) and 2-node (mixed) object graphs.",
    note="'Confirmed over all paths' within the per-condition timeout is CrossHair's verdict; a counterexample is replayed natively before it is reported; everything else is inconclusive. cattrs' eval is rebound to an untraced eval and the converter's per-call code generation is memoised per class (stated stubs). Types outside the family are outside the claim.", ref="§2 C16")
+CHECKS["C03"] = dict(engine="crosshair", technique="CrossHair (symbolic execution of Python with z3) on PEP-316 round-trip conditions over models emitted by the real generator and the generated package's own converter; leaves, presence flags and list lengths symbolic",
+   text="Models generated this run from the template family T_model (camelCase / snake_case / kebab-case / keyword-like / colliding-after-sanitisation names; nested object, list of object, typed map, nullable, allOf child; date-time, date, uuid, byte, number, boolean; string and integer enums): for every subset of optional properties and all symbolic leaf values CrossHair decides that unstructure(structure(doc)) equals doc up to the tolerated null/empty-container difference, under two warm-up histories of the converter.",
+   note="Same trusted base and stubs as C16. Recursive models (Tree) are not covered: CrossHair reports NotDeterministic inside cattrs' handling of List[ForwardRef] (stated in DESIGN.md). Schemas outside T_model are outside the claim.", ref="§2 C03")
 NA = {
  "C01": "not applicable to solver-based checking: the observation is compile()/import of a whole emitted file tree for a whole symbolic document; no kernel small enough to encode (identifier and lexical kernels are decided under C20/C15)",
  "C09": "not applicable: quantifies over hash seeds, processes, clocks and existing file trees; the deciding observation is byte equality of directory trees - nothing for a solver to decide",
